@@ -43,13 +43,13 @@ type closure struct {
 }
 
 type world struct {
-	treeUnknown []bool // a link leads to or through a directory that the rules may remove: validity not predicted
-	badTree [][]string // per package: reasons a correct builder must refuse the fetched tree (after rule filtering)
-	sc      *bw.Scenario
-	files   []map[string]bw.PFile // per package: filtered content incl. deps files and rule file (files and links only strict)
-	raw     []map[string]bw.PFile // unfiltered
-	rules   [][]model.IgRule
-	content []string // canonical content signature of the filtered regular files (for coalescing)
+	treeUnknown []bool     // a link leads to or through a directory that the rules may remove: validity not predicted
+	badTree     [][]string // per package: reasons a correct builder must refuse the fetched tree (after rule filtering)
+	sc          *bw.Scenario
+	files       []map[string]bw.PFile // per package: filtered content incl. deps files and rule file (files and links only strict)
+	raw         []map[string]bw.PFile // unfiltered
+	rules       [][]model.IgRule
+	content     []string // canonical content signature of the filtered regular files (for coalescing)
 }
 
 func depsFileName(f string) string { return "deps." + f }
